@@ -198,6 +198,14 @@ def gen_docs(rng, n, big=False):
             extras[b"X%d" % k] = prev
         if extras:
             d.objects[1][b"Extras"] = d.add(extras)
+        # developer extensions (7.12): qpdf owns /ADBE and the directness of /Extensions; other vendors' entries are content
+        r = rng.random()
+        if r < 0.3:
+            ext = {b"XVRF": D(BaseVersion=N("1.7"), ExtensionLevel=rng.randint(1, 9))}
+            if rng.random() < 0.6:
+                ext[b"ADBE"] = D(BaseVersion=N("1.7"), ExtensionLevel=rng.choice([3, 8])) if rng.random() < 0.5 \
+                    else d.add(D(BaseVersion=N("1.7"), ExtensionLevel=3))
+            d.objects[1][b"Extensions"] = ext if rng.random() < 0.5 else d.add(ext)
         info = D(Title=Str(b"doc %d" % i), Producer=Str(b"verif"))
         r = rng.random()
         if r < 0.75:
@@ -231,6 +239,8 @@ CONFIGS_QUICK = [
     ["--allow-weak-crypto", "--encrypt", "--user-password=u", "--owner-password=o", "--bits=128", "--use-aes=n", "--"],
     ["--linearize", "--encrypt", "--user-password=", "--owner-password=o", "--bits=256", "--", "--object-streams=generate"],
     ["--decode-level=all", "--stream-data=uncompress"], ["--normalize-content=y"], ["--coalesce-contents", "--object-streams=generate"],
+    ["--min-version=1.7.8"], ["--force-version=1.7.5", "--object-streams=preserve"],
+    ["--allow-weak-crypto", "--encrypt", "--user-password=u", "--owner-password=o", "--bits=128", "--use-aes=y", "--", "--object-streams=generate"],
 ]
 
 
